@@ -259,6 +259,56 @@ Section Proofs.
     rewrite Hs. rewrite Hg, Z.sub_diag, Hlen. unfold slice. cbn [Z.to_nat skipn]. apply firstn_all.
   Qed.
 
+  (* ---------------- the window: stop-and-wait, plus one for every rejection ---------------- *)
+  Definition b2n (b : bool) : nat := if b then 1%nat else 0%nat.
+  Definition pot (s : sys) : nat := (b2n (clear C (snd_ C s)) + length (to_fw C s) + length (to_host C s))%nat.
+  Definition rejects (s : sys) : bool :=
+    match to_fw C s with
+    | fr :: _ => match snd (fw_react C (fw C s) fr) with [_; _] => true | _ => false end
+    | [] => false
+    end.
+  Fixpoint run_rej (job : list (option C)) (ls : list label) (s : sys) (rej : nat) : option (sys * nat) :=
+    match ls with
+    | [] => Some (s, rej)
+    | l :: ls' =>
+        let rej' := match l with LFw => if rejects s then S rej else rej | _ => rej end in
+        match step C job l s with Some s' => run_rej job ls' s' rej' | None => None end
+    end.
+
+  Lemma pot_step job l s s' : step C job l s = Some s' ->
+    (pot s' <= pot s + match l with LFw => b2n (rejects s) | _ => 0 end)%nat.
+  Proof.
+    intros H. destruct s as [sd f tf th]. destruct sd as [ln rf q cl pr sl]. unfold pot, rejects. cbn in *.
+    destruct l as [good| |]; cbn in H.
+    - destruct (cl && pr) eqn:Hen; [|discriminate]. apply andb_true_iff in Hen as [-> ->].
+      unfold sendnext in H. cbn in H.
+      destruct ((rf <? ln) && (-1 <? rf)).
+      + destruct (lookup C rf sl); [|discriminate]. injection H as <-. cbn. rewrite app_length. cbn. lia.
+      + destruct (nth_error job q) as [[c|]|]; injection H as <-; cbn; rewrite ?app_length; cbn; lia.
+    - destruct tf as [|fr rest]; [discriminate|]. destruct (fw_react C f fr) as [f' rs] eqn:Hre. injection H as <-. cbn.
+      rewrite app_length. unfold fw_react in Hre. destruct (negb (fgood C fr)).
+      + injection Hre as <- <-. cbn. lia.
+      + destruct (fpay C fr) as [n c|].
+        * destruct (n =? expected C f); injection Hre as <- <-; cbn; lia.
+        * injection Hre as <- <-. cbn. lia.
+    - destruct th as [|r rest]; [discriminate|]. injection H as <-. destruct r; cbn; destruct cl; cbn; lia.
+  Qed.
+
+  (* WINDOW: whatever the corruption pattern and the interleaving, the number of frames on the wire (indeed: frames on the
+     wire + replies on their way + the sender's own clear-to-send flag) never exceeds one plus the number of transmissions
+     the firmware has rejected so far.  On a clean link the protocol is stop-and-wait; every rejection (answered by Resend
+     AND ok) lets the print thread run one more line ahead -- the mechanism behind the lost tail *)
+  Theorem window job boot g ls s rej : run_rej job ls (init C boot g) 0 = Some (s, rej) ->
+    (length (to_fw C s) <= pot s /\ pot s <= 1 + rej)%nat.
+  Proof.
+    intros H. split; [unfold pot; lia|].
+    assert (Hgen : forall ls s0 r0 s1 r1, run_rej job ls s0 r0 = Some (s1, r1) -> (pot s0 <= 1 + r0)%nat -> (pot s1 <= 1 + r1)%nat).
+    { clear. induction ls as [|l ls IH]; intros s0 r0 s1 r1 H Hp; cbn in H; [injection H as <- <-; exact Hp|].
+      destruct (step C job l s0) as [sx|] eqn:E; [|discriminate]. pose proof (pot_step job l s0 sx E) as Hs.
+      apply (IH _ _ _ _ H). destruct l; try lia. unfold b2n in Hs. destruct (rejects s0); lia. }
+    apply (Hgen ls _ 0%nat _ _ H). cbn. lia.
+  Qed.
+
   (* a resend request for a line already sent makes the next transmission that very line, as stored *)
   Theorem resend_served job s n c good : clear C (snd_ C s) = true -> printing C (snd_ C s) = true ->
     resendfrom C (snd_ C s) = n -> 0 <= n < lineno C (snd_ C s) -> lookup C n (sentl C (snd_ C s)) = Some c ->
